@@ -191,7 +191,7 @@ def _case(r, fam, data, dtype, mode, spec, lo, hi, api=None):
 
 INT_RANGES = {"i1": (-128, 127), "u1": (0, 255), "i2": (-32768, 32767), "u2": (0, 65535),
               "i4": (-2**31, 2**31 - 1), "u4": (0, 2**32 - 1), "i8": (-2**53, 2**53), "u8": (0, 2**53), "bool": (0, 1)}
-APIS = ["tuple", "more", "binner", "weights", "norev", "binner_y", "binner_w", "binner_twice", "binner_stats"]
+APIS = ["tuple", "more", "binner", "weights", "norev", "binner_y", "binner_w", "binner_twice", "binner_stats", "binner_yw"]
 
 
 def _fit_dtype(vals, dtype):
@@ -232,7 +232,7 @@ def _forms(r, c, force=None):
     if not c["explicit"] and r.random() < 0.3:
         c["mergelast"] = False
     c["api"] = f.get("api") or r.choice(APIS)
-    if c["api"] in ("weights", "binner_w"):
+    if c["api"] in ("weights", "binner_w", "binner_yw"):
         c["wpat"] = f.get("wpat") or r.choice(["ones", "mod3"])
     c["family"] = c["family"].split("/")[0] + "+forms" + c["family"][len(c["family"].split("/")[0]):]
     return c
@@ -308,6 +308,8 @@ def _sequence(r):
             c["reuse"] = True
         if r.random() < 0.25:
             c["flip"] = True                      # as an earlier call it runs on the other engine
+        if r.random() < 0.4:
+            c["scribble"] = True                  # the returned hist / rev are overwritten by the caller afterwards
         e = expected(c)
         if e is not None and e["nbin"] > MAXBIN:
             c["mode"], c["spec"] = "nbin", r.choice([1, 3, 10])
@@ -644,7 +646,7 @@ class Hist(Entry):
         elif c.get("mergelast") is not None:      # documented option without influence on binsize/nbin histograms
             kw["mergelast"] = c["mergelast"]
         wts = None
-        if api in ("weights", "binner_w"):
+        if api in ("weights", "binner_w", "binner_yw"):
             wts = np.ones(n) if c.get("wpat") != "mod3" else np.array([float(i % 3) for i in range(n)])
             if cont in ("scalar", "zerod"):
                 wts = float(wts[0])
@@ -673,6 +675,10 @@ class Hist(Entry):
             elif api == "binner_w":
                 b = st.Binner(data, weights=wts)
                 b.dohist(rev=False, calc_stats=False, **kw)
+            elif api == "binner_yw":          # second variable and weights together
+                b = st.Binner(data, y=np.arange(n, dtype="f8") if n != 1 or cont not in ("scalar", "zerod") else 0.0,
+                              weights=wts)
+                b.dohist(rev=False, calc_stats=False, **kw)
             elif api == "binner_twice":       # the same object used before with another specification
                 b = st.Binner(data)
                 try:
@@ -691,7 +697,7 @@ class Hist(Entry):
                         state["binner"] = b
                 b.dohist(rev=True, calc_stats=(api == "binner_stats"), **kw)
             h, rev = b["hist"], b["rev"]
-            pre = "x" if api == "binner_y" else ""
+            pre = "x" if api in ("binner_y", "binner_yw") else ""
             obs = {"binsize": float(b["binsize"]).hex(), "nbin": int(b["nbin"]),
                    "min": float(b[pre + "min"]).hex(), "max": float(b[pre + "max"]).hex(),
                    "sort": [int(v) for v in b["sort_index"]], "wsort": [int(v) for v in b["wsort"]]}
@@ -699,7 +705,14 @@ class Hist(Entry):
         if h.size > MAXOUT or rev.size > MAXOUT:     # a (mutated) tree that derives a huge bin count
             raise OverflowError("hist/rev with %d/%d elements: far beyond what the generated cases ask for"
                                 % (h.size, rev.size))
-        return {"hist": [int(v) for v in h], "rev": [int(v) for v in rev], "obs": obs}
+        res = {"hist": [int(v) for v in h], "rev": [int(v) for v in rev], "obs": obs}
+        scr = c.get("scribble")
+        if scr:                               # the caller writes into the RETURNED arrays before calling again
+            h[...] = -7
+            rev[...] = -7
+            if scr == "sort" and obs is not None:      # (only in witnesses of the aliasing finding, see docs/reports/C05.md 11)
+                b["sort_index"][...] = 0
+        return res
 
     def _one(self, c, have_chist, with_history=True):
         """the judged call, after the earlier calls of its sequence (c["history"]) were made in this
@@ -828,6 +841,13 @@ def run(ctx, replay=None):
         vals = core.coq_eval(ctx.work + "/gen", PRE + "Open Scope Z_scope.\n" + gen, [t], tag="gen", shard=1)
         same = vals[0].strip("() ").replace("%Z", "") == "0"
         note = "" if same else "regenerated: %s" % consts
+        # expressions, tests and keyword handling translated into Gallina: each tie lemma is re-proved now
+        ties = core.coq_lemmas(ctx.work + "/tie", PRE + "Open Scope Z_scope.\n" + gen,
+                               [(st, pr) for _, st, pr in c05_translate.TIES], tag="tie", shard=len(c05_translate.TIES))
+        for (name, st, _), (ok, msg) in zip(c05_translate.TIES, ties):
+            ctx.obligation("tie (translated from the source): " + name, ok, msg[-300:])
+            if not ok and same:
+                same, note = False, "tie lemma no longer holds: %s: %s" % (name, st)
     except (c05_translate.TranslateError, OSError, SyntaxError, core.CoqEvalError) as e:
         same, note, consts = False, str(e)[-600:], None
     ctx.obligation("constants regenerated from esutil/stat/util.py and chist_pywrap.c (c05_translate) equal the named "
